@@ -355,7 +355,10 @@ def r_library(ctx, model):
     ar = return_arity(fd)
     ctx.libfact(f"installed polynomial_least_square_fitting returns arity {sorted(ar)}; numba-typed: {numba_signature_readonly_intolerant(fd)}")
     n = 0
-    for st in ast.walk(f):
+    # the command function and every other function / method of its module (the fit may live in a helper)
+    smod = model.mods[REF.split(":")[0]]
+    scopes = [f] + [g for q_, g in smod.funcs.items() if g is not f and not any(g is x for x in ast.walk(f))]
+    for st in (x for sc in scopes for x in ast.walk(sc)):
         if isinstance(st, ast.Assign) and isinstance(st.value, ast.Call) and \
                 (dotted_name(st.value.func) or "").split(".")[-1] == "polynomial_least_square_fitting":
             n += 1
